@@ -36,7 +36,8 @@ Chains == {<<8, 5>>, <<7, 4>>, <<9, 6>>, <<10, 5>>, <<11, 5>>, <<5, 8>>, <<4, 7>
 SI(sid, key, pl) == [sid |-> sid, key |-> key, pl |-> pl]
 \* signer info sets for a chain whose AS certificate is a and CA certificate is c
 SisFor(a, c) == {<<SI(a, a, "csr")>>, <<>>, <<SI(a, a, "csr"), SI(a, a, "csr")>>, <<SI(a, a, "csr"), SI(c, c, "csr")>>,
-                 <<SI(c, c, "csr")>>, <<SI(a, 11, "csr")>>, <<SI(a, a, "other")>>, <<SI(11, 11, "csr")>>, <<SI(a, c, "csr")>>}
+                 <<SI(c, c, "csr")>>, <<SI(a, 11, "csr")>>, <<SI(a, a, "other")>>, <<SI(11, 11, "csr")>>, <<SI(a, c, "csr")>>,
+                 <<SI(c, a, "csr")>>}     \* identifier names the CA certificate, signature made with the AS key
 CSRs == {[ia |-> 2, selfsig |-> TRUE], [ia |-> 3, selfsig |-> TRUE], [ia |-> 2, selfsig |-> FALSE], [ia |-> 0, selfsig |-> TRUE]}
 ASOf(ch) == IF \E i \in 1..Len(ch) : Pool[ch[i]].kind = "as" THEN ch[CHOOSE i \in 1..Len(ch) : Pool[ch[i]].kind = "as"] ELSE 8
 CAOf(ch) == IF \E i \in 1..Len(ch) : Pool[ch[i]].kind = "ca" THEN ch[CHOOSE i \in 1..Len(ch) : Pool[ch[i]].kind = "ca"] ELSE 5
